@@ -196,17 +196,17 @@ func (p *prov) origin(v ssa.Value, d int) string {
 		}
 		return x.Op.String() + p.origin(x.X, d+1)
 	case *ssa.Field:
-		return p.origin(x.X, d+1) + "." + structField(x.X.Type(), x.Field).Name()
+		return p.origin(x.X, d+1) + fieldSeg(x.X.Type(), x.Field)
 	case *ssa.FieldAddr:
 		if al, ok := x.X.(*ssa.Alloc); ok {
 			if s, ok := singleStore(al); ok {
-				return "&" + p.origin(s, d+1) + "." + structField(x.X.Type(), x.Field).Name()
+				return "&" + p.origin(s, d+1) + fieldSeg(x.X.Type(), x.Field)
 			}
 		}
 		if fa2, ok := x.X.(*ssa.FieldAddr); ok {
-			return p.origin(fa2, d+1) + "." + structField(x.X.Type(), x.Field).Name()
+			return p.origin(fa2, d+1) + fieldSeg(x.X.Type(), x.Field)
 		}
-		return "&" + p.origin(x.X, d+1) + "." + structField(x.X.Type(), x.Field).Name()
+		return "&" + p.origin(x.X, d+1) + fieldSeg(x.X.Type(), x.Field)
 	case *ssa.IndexAddr:
 		return "&" + p.origin(x.X, d+1) + "[" + p.origin(x.Index, d+1) + "]"
 	case *ssa.Index:
@@ -702,4 +702,23 @@ func (w *World) pureAccessor(f *ssa.Function) *ssa.Return {
 		return nil
 	}
 	return ret
+}
+
+// fieldSeg: the path segment of a field selection. A struct embedded by value is transparent — `s.streamFlags.balancing`
+// and `s.balancing` are one location whether or not the flags were grouped into an embedded part — so it contributes no
+// segment (an embedded interface or pointer keeps its name: it is a value of its own).
+func fieldSeg(t types.Type, idx int) string {
+	f := structField(t, idx)
+	if embeddedPart(f) {
+		return ""
+	}
+	return "." + f.Name()
+}
+
+func embeddedPart(f *types.Var) bool {
+	if f == nil || !f.Embedded() {
+		return false
+	}
+	_, isStruct := f.Type().Underlying().(*types.Struct)
+	return isStruct
 }
